@@ -125,7 +125,9 @@ def gen_plan(rng, tier, run):
             # directory modes: a healthy PEL stored beside the damaged file (sorted before or after it)
             "decoy": rng.choice([None, None, "0decoy", "zdecoy"]),
             # -f may be combined with --clean (the harness restores the file before every execution)
-            "clean": rng.random() < 0.25}
+            "clean": rng.random() < 0.25,
+            # the name of the damaged file
+            "fname": rng.choice(["pel"] * 5 + ["pel%20copy", "100%.pel", "x_%s.pel", "{0}.pel", "a b.pel", "\u00e9.pel"])}
     if plan["big"]:
         pad = rng.choice([b"\x00", b" ", b"\x00 ", b"\n"])
         body = rng.choice([b'{"k": "v"}', b"line one\nline two"])
@@ -260,9 +262,10 @@ def execute(plan):
         steps.start()
         try:
             # the intact PEL must decode (generator sanity; not a verdict)
-            w.put("F/pel", data)
+            fpath = "F/" + plan.get("fname", "pel")
+            w.put(fpath, data)
             steps.arm(len(data))
-            ref = w.run(["-f", "@/F/pel", "-E"])
+            ref = w.run(["-f", "@/" + fpath, "-E"])
             ok, _ = common.parse_json_stream(ref.stdout)
             if not ok or ref.exit != 0 or hits:
                 raise HarnessError("intact PEL does not decode cleanly: exit=%r stderr=%s hits=%s" % (ref.exit, ref.stderr[-300:], hits[:2]))
@@ -283,16 +286,16 @@ def execute(plan):
                     continue
                 kind = f["kind"] + ("+torn" if "then_torn" in f else "")
                 is_prefix = f["kind"] == "torn" or (f["kind"] == "lost")
-                w.put("F/pel", bad)
+                w.put(fpath, bad)
                 del hits[:]
                 # ---- CLI
                 steps.arm(len(bad))
                 cli = plan.get("cli", "-f")
                 if cli == "-f":
-                    argv = ["-f", "@/F/pel"] + plan["opts"] + (["-c"] if plan.get("clean") else [])
+                    argv = ["-f", "@/" + fpath] + plan["opts"] + (["-c"] if plan.get("clean") else [])
                 else:
                     # the damaged file is the only file of a PEL directory, stored under its BMC-style name
-                    w.put("G/" + gname, bad)
+                    w.put("G/" + gname + ("" if plan.get("fname", "pel") == "pel" else "." + plan["fname"]), bad)
                     ps = [x for x in r["sections"] if x["kind"] == "src" and x["id"] == "PS"]
                     argv = ["-p", "@/G"] + {"-i": ["-i", "%08X" % r["eid"]], "-a": ["-a"], "--bmc-id": ["--bmc-id", str(r["bmc_id"])],
                                             "-l": ["-l"], "-n": ["-n"], "--plid": ["--plid", "%08X" % r["plid"]],
